@@ -10,6 +10,9 @@ use super::spos::{self, SPos, P9};
 use super::workers::Worker;
 use super::Args;
 
+/// wall-clock allowance for one tiny in-process search before the watchdog calls it an overrun
+const ALLOW: std::time::Duration = std::time::Duration::from_secs(3);
+
 pub const KINDS: [&str; 7] = ["depth", "nodes", "movetime", "wtime", "btime", "winc", "binc"];
 pub const VALUES: [[u128; 2]; 7] = [[1, 2], [1, 30], [0, 50], [0, 1000], [0, 1000], [0, 100], [0, 100]];
 
@@ -63,6 +66,9 @@ pub fn judge_go(out: &Out, legal: &[String]) -> Option<String> {
     if let Some(p) = &out.panicked {
         return Some(format!("the search panicked ({p}) - no bestmove is sent"));
     }
+    if out.overran {
+        return Some("the search did not end on its own: no bestmove within 3 s although every limit of this go had expired or was tiny".to_string());
+    }
     let bm = searchrun::bestmoves(&out.log);
     if bm.len() != 1 {
         return Some(format!("{} bestmove lines instead of exactly one", bm.len()));
@@ -93,7 +99,8 @@ pub fn c09_worker(args: &Args, w: &Worker) -> i32 {
     let fresh = Opts { clear_cache: true, observe: false, neutral: false };
     let keep = Opts { clear_cache: false, observe: false, neutral: false };
     let mut idx = 0usize;
-    for p in P9.iter().take(npos) {
+    let overruns = std::cell::Cell::new(0u32);
+    'positions: for p in P9.iter().take(npos) {
         let Ok((board, pos, _)) = searchrun::open(p.fen, &spos::hist(p)) else {
             w.info("bad-position", p.name);
             continue;
@@ -111,7 +118,7 @@ pub fn c09_worker(args: &Args, w: &Worker) -> i32 {
             w.count("limit_assignments_x_positions", 1);
             for cut in schedules(&l, k_clock, k_stop) {
                 let c = case_for(p, &l, cut);
-                let out = searchrun::run(&board, &c, &fresh);
+                let out = searchrun::run_within(&board, &c, &fresh, ALLOW);
                 w.count("searches", 1);
                 w.count("search_nodes", out.nodes);
                 if out.clock_fired || matches!(cut, Cut::StopAt(_)) {
@@ -123,6 +130,14 @@ pub fn c09_worker(args: &Args, w: &Worker) -> i32 {
                 if let Some(why) = judge_go(&out, &legal) {
                     w.violation(&c.sig(), &format!("'{}' [{}] on {} ({}): {why}", l.go_line(), cut.text(), p.fen, p.name), &c.json());
                 }
+                if out.overran {
+                    overruns.set(overruns.get() + 1);
+                    if overruns.get() >= 3 {
+                        // the run is failing anyway; do not spend minutes waiting for more of the same
+                        w.count("enumeration_stopped_early_after_3_overruns", 1);
+                        break 'positions;
+                    }
+                }
             }
             // consecutive searches in one session: the cache is not cleared in between
             if code % 5 == 0 {
@@ -130,7 +145,7 @@ pub fn c09_worker(args: &Args, w: &Worker) -> i32 {
                 if let Some(cut) = cuts.first().copied() {
                     let c = case_for(p, &l, cut);
                     for round in 0..3 {
-                        let out = searchrun::run(&board, &c, if round == 0 { &fresh } else { &keep });
+                        let out = searchrun::run_within(&board, &c, if round == 0 { &fresh } else { &keep }, ALLOW);
                         w.count("searches", 1);
                         w.count("searches_on_a_used_cache", u64::from(round > 0));
                         if let Some(why) = judge_go(&out, &legal) {
@@ -155,7 +170,7 @@ pub fn c09_worker(args: &Args, w: &Worker) -> i32 {
                 let l = Limits { nodes: Some(n), ..Default::default() };
                 let mut c = case_for(p, &l, Cut::ClockNever);
                 c.max_depth = Some(2);
-                let out = searchrun::run(&board, &c, &fresh);
+                let out = searchrun::run_within(&board, &c, &fresh, ALLOW);
                 w.count("searches", 1);
                 w.count("node_budget_points", 1);
                 if let Some(why) = judge_go(&out, &legal) {
@@ -169,7 +184,7 @@ pub fn c09_worker(args: &Args, w: &Worker) -> i32 {
                 }
                 let mut c = case_for(p, &Limits::default(), Cut::StopAt(k));
                 c.max_depth = Some(2);
-                let out = searchrun::run(&board, &c, &fresh);
+                let out = searchrun::run_within(&board, &c, &fresh, ALLOW);
                 w.count("searches", 1);
                 w.count("stop_points", 1);
                 if let Some(why) = judge_go(&out, &legal) {
